@@ -272,6 +272,30 @@ def gen_integer_span(rng):
     return c
 
 
+def gen_parabolic(rng):
+    """Integer-valued 1-D arrays (a cross-correlation of 0/1 histograms is integer-valued): short ones with
+    ties / flat tops / maxima at either edge, sampled parabolas, and longer random ones."""
+    k = rng.random()
+    if k < 0.5:
+        n = rng.randrange(1, 9)
+        return [rng.randrange(0, 5) for _ in range(n)]
+    if k < 0.75:
+        n = rng.randrange(3, 40)
+        h, a, m = rng.randrange(0, n), rng.randrange(1, 4), rng.randrange(0, 50)
+        sh = rng.choice([0, 0, 1, 2])          # vertex between samples: (k - h)^2 + sh*(k - h)
+        return [m - a * ((i - h) ** 2 + sh * (i - h)) for i in range(n)]
+    n = rng.randrange(9, 200)
+    return [rng.randrange(0, 30) for _ in range(n)]
+
+
+def impl_parabolic(xs):
+    from ibldsp import utils
+    with warnings.catch_warnings():
+        warnings.simplefilter("ignore")
+        ip, mx = utils.parabolic_max(np.array(xs, dtype=np.float64))
+    return float(ip), float(mx)
+
+
 def span_is_integer(case):
     lo = min(min(case["tsa"]), min(case["tsb"]))
     hi = max(max(case["tsa"]), max(case["tsb"]))
@@ -447,6 +471,34 @@ def run(ctx):
         results.append(res)
     ext = common.Extracted(PROP)
     outs = ext.run_many(inputs, nproc=min(6, max(1, len(inputs) // 50)))
+    # parabolic_max (sub-bin peak interpolation) against its model, 1-D integer-valued arrays
+    n_par = 20000 if thorough else 3000
+    par_in, par_seen = [], set()
+    for _ in range(n_par):
+        xs = gen_parabolic(rng)
+        if tuple(xs) not in par_seen:
+            par_seen.add(tuple(xs))
+            par_in.append(xs)
+    par_out = ext.run_many([[7, len(xs)] + xs for xs in par_in], nproc=2)
+    dist["parabolic_max_arrays"] = len(par_in)
+    dist["parabolic_max_interior_peak"] = 0
+    for xs, mo in zip(par_in, par_out):
+        try:
+            ip, mx = impl_parabolic(xs)
+        except Exception as e:      # noqa
+            ctx.disagree("parabolic_max raised %r" % (e,), {"kind": "parabolic", "x": xs})
+            continue
+        imax = int(np.argmax(xs))
+        interior = 0 < imax < len(xs) - 1
+        dist["parabolic_max_interior_peak"] += interior
+        if interior:
+            nontrivial.add(json.dumps(["parabolic", xs]))
+        if len(mo) != 2 or abs(mo[0] / FCN_SCALE - ip) > 1e-9 or abs(mo[1] / FCN_SCALE - mx) > 1e-9 * (1 + abs(mx)):
+            ctx.disagree("parabolic_max differs: model (%s), implementation (%r, %r)"
+                         % ([m / FCN_SCALE for m in mo], ip, mx), {"kind": "parabolic", "x": xs})
+        elif interior and abs(ip - imax) > 0.5 + 1e-12:
+            ctx.fail("parabolic_max moved the peak by more than half a bin", {"kind": "parabolic", "x": xs},
+                     {"kind": "parabolic_half_bin"})
     kernel_terms = []
     sizes = []
     for k, ci in enumerate(keep):
@@ -472,9 +524,12 @@ def run(ctx):
     pick = [k for _, k in sizes[:nk]] + rng.sample(range(len(inputs)), min(len(inputs), nk // 2))
     pick = [k for k in dict.fromkeys(pick) if len(inputs[k]) + len(outs[k]) < 400]
     terms = [common.flat_cases_term(k, inputs[k], outs[k]) for k in pick]
+    small_par = sorted(range(len(par_in)), key=lambda i: len(par_in[i]))[:20]
+    terms += [common.flat_cases_term(10 ** 6 + i, [7, len(par_in[i])] + par_in[i], par_out[i]) for i in small_par]
     badk = common.coq_mismatches(PROP, HEADER, terms, shard=15) if terms else []
     for k in badk:
-        ctx.disagree("kernel-evaluated model differs from the extracted model", slim(cases[keep[k]]))
+        ctx.disagree("kernel-evaluated model differs from the extracted model",
+                     slim(cases[keep[k]]) if k < 10 ** 6 else {"kind": "parabolic", "x": par_in[k - 10 ** 6]})
     ctx.coverage["model_evaluations_extracted"] = len(inputs)
     ctx.coverage["model_evaluations_kernel"] = len(pick)
     ctx.measurements.update({k: (round(v, 9) if isinstance(v, float) else v) for k, v in meas.items()})
@@ -495,8 +550,9 @@ def run(ctx):
              "ground-truth oracle and compared with the Coq model fed the implementation's own coarse offset; (boundary) "
              "2..8-event trains on a 1/64 s grid with a forced coarse offset, spacings and perturbations at k-1,k,k+1 "
              "grid steps around tbin and 2*tbin, spurious/missing/unsorted b events; (integer_span) domain trains whose "
-             "span is a whole number of seconds.  Non-trivial = at least two pairs returned; distinct by full input",
-        samples=samples, evaluations=len(cases), distinct_nontrivial=len(nontrivial),
+             "span is a whole number of seconds; plus (parabolic) integer-valued arrays through utils.parabolic_max and its "
+             "model.  Non-trivial = at least two pairs returned (trains) / maximum strictly inside (arrays); distinct by full input",
+        samples=samples, evaluations=len(cases) + len(par_in), distinct_nontrivial=len(nontrivial),
         extra={"input_distribution": dist, "exhaustive": False},
         assumptions=["coarse offset taken from the implementation (not modelled)",
                      "float64 vs exact arithmetic: comparisons within 2^-30 of a threshold excluded from exact index comparison"])
@@ -518,6 +574,12 @@ def replay(ctx, data):
         print(json.dumps(data, indent=1)[:3000])
         return 1
     case = inp
+    if case.get("kind") == "parabolic":
+        xs = case["x"]
+        ip, mx = impl_parabolic(xs)
+        mo = common.Extracted(PROP).run_many([[7, len(xs)] + xs], nproc=1)[0]
+        print("implementation:", (ip, mx), "model:", [m / FCN_SCALE for m in mo])
+        return 1 if (abs(mo[0] / FCN_SCALE - ip) > 1e-9 or abs(mo[1] / FCN_SCALE - mx) > 1e-9 * (1 + abs(mx))) else 0
     res = impl_run(case)
     print("implementation:", {k: (v if not isinstance(v, list) else v[:12]) for k, v in res.items()})
     rc = 0
